@@ -836,6 +836,13 @@ func TestVerifC07Lab(t *testing.T) {
 	}
 	vC07LabWindow(l, r, winN, scratch, emit)
 
+	// ------------------------------------------------- one hop of the real Resolve, minimised or not, judged by the model
+	hopN := n / 2
+	if hopN < 40 {
+		hopN = 40
+	}
+	vC07LabMinHop(l, rand.New(rand.NewSource(int64(vC07EnvInt("VERIF_SEED", 1))*86028121+17)), hopN, scratch, emit)
+
 	// ------------------------------------------------------- cached descent, live
 	for rep := 0; rep < 2; rep++ {
 		p := l.newPipe(0, scratch)
